@@ -22,7 +22,23 @@ fraction of the models has intermediates that mention a d<state>_dt name.  A cas
 intermediate or an expression of nesting depth >= 2 and the reference rhs is not identically zero; cases are
 distinct by sha1(model text, point)."""
 
-PROBES = [
+def _precedence_probes():
+    """every binary operator over every binary operator, left and right, written with only the parentheses the grammar needs; powers with the
+    small integer exponents that printers like to special-case (2, 3, -1, -2, 0.5) in numerators, denominators, bases and exponents"""
+    out = []
+    ops = ["+", "-", "*", "/", "**"]
+    for o1 in ops:
+        for o2 in ops:
+            out.append(f"a {o1} x {o2} y")          # precedence decides the grouping
+            out.append(f"a {o1} (x {o2} y)")
+            out.append(f"(a {o1} x) {o2} y")
+    for e in ("2", "3", "-1", "-2", "0.5", "2.0"):
+        out += [f"a/x**{e}", f"1/y**{e}", f"a/x**{e}/y", f"a/x**{e}*y", f"a*x**{e}/y**{e}", f"(a + y)**{e}/x**{e}", f"a/(x**{e})", f"a/(x*y)**{e}",
+                f"-x**{e}/y", f"a - x**{e}", f"a/-x**{e}", f"x**{e}**2", f"(x**{e})**2", f"a/x**{e}**2"]
+    return out
+
+
+PROBES = _precedence_probes() + [
     "-x**2", "2**-x", "--x", "x**y**2", "-2**2", "-+-x", "x - -y", "x*-y", "x/-y**2", "2**-x**2", "(-x)**2",
     "x**-2", "1e3*x", "1E-2*x", "1.5e+2*x", ".5*x", "5.*x", "x*pi", "t*x + time", "Mod(x, 3)", "Mod(-x, 3)", "Mod(x, -3)",
     "x - y - 2", "x/y/2", "x/y*2", "x - (y - 2)", "x/(y*2)", "x**2**0.5", "(x**2)**0.5", "Lt(x, y) + 1", "1/3*x",
@@ -50,7 +66,8 @@ USES_SHRINK = True
 
 def cases(tier, seed, focus):
     n = 420 if tier == "quick" else 6000
-    yield {"probe": True, "tags": ["C01:rhs-mismatch"]}
+    for lo in range(0, len(PROBES), 12):  # a dozen one-line models per case keeps every case far below the per-case timeout
+        yield {"probe": True, "lo": lo, "hi": lo + 12, "tags": ["C01:rhs-mismatch"]}
     yield {"probe": "pi-trig", "tags": ["C01:rhs-mismatch:trig-of-unevaluated-sum-with-pi"]}
     for i in range(n):
         k = seed * 100003 + i
@@ -60,7 +77,7 @@ def cases(tier, seed, focus):
 def check(case):
     res = cm.new_result()
     if case.get("probe"):
-        for e in (PI_TRIG_PROBES if case["probe"] == "pi-trig" else PROBES):
+        for e in (PI_TRIG_PROBES if case["probe"] == "pi-trig" else PROBES[case.get("lo", 0):case.get("hi", len(PROBES))]):
             sub = check({"ode": f"parameters(a=2.0)\nstates(x=1.5, y=2.0)\nw0 = 0.5*x\ndx_dt = {e}\ndy_dt = a - y\n", "npts": 4})
             for k in ("failures", "errors", "nontrivial"):
                 res[k] += sub[k]
